@@ -189,7 +189,13 @@ func zzH_C09_validator() {
 		}
 		s.UpdateDelegation(d, cur, delta)
 	case 3:
-		s.AddWithdrawRecord(&WithdrawRecord{Operator: zzAddr(2), Validator: zzValAddr(2), Nonce: 77, CompletionHeight: zzverif.U64("new.height"),
+		// (the queue does not enforce unique (operator, nonce) keys: the undo must take out the
+		// record this frame added, not an older one with the same key)
+		op, nonce := zzAddr(2), uint64(77)
+		if zzverif.Bool("new.sameKeyAsQueued") {
+			op, nonce = zzAddr(1), 10
+		}
+		s.AddWithdrawRecord(&WithdrawRecord{Operator: op, Validator: zzValAddr(2), Nonce: nonce, CompletionHeight: zzverif.U64("new.height"),
 			InitialBalance: big.NewInt(1), FinalBalance: big.NewInt(1)})
 	case 4:
 		s.RemoveWithdrawRecords([]int{zzverif.Choose("rm", 2)})
